@@ -607,6 +607,12 @@ def _via(expr, name):
     return "unknown-route"
 
 
+def _names(e, name, cls):
+    """name denotes cls (by the harness' table, or by its own qualified name
+    for classes of lazily imported modules)."""
+    return e.table.get(name) is cls or name == f"{cls.__module__}.{cls.__qualname__}"
+
+
 def _via_instance(expr, cls, e):
     """How did this class reach instantiation?  Looks for the nodes of the
     expression that name it (by the harness' own name table): the operand of
@@ -617,10 +623,10 @@ def _via_instance(expr, cls, e):
         if node[0] == b"instance" and len(node) > 1:
             op = node[1]
             if type(op) is list and len(op) == 2 and isinstance(op[0], bytes) and _text(op[1]) is not None:
-                if e.table.get(_text(op[1])) is cls and op[0] in (b"class", b"function"):
+                if _names(e, _text(op[1]), cls) and op[0] in (b"class", b"function"):
                     routes.add("instance-tag(" + op[0].decode() + ")")
         elif b"." in node[0] and node[0] not in REGISTERED and _text(node[0]) is not None:
-            if e.table.get(_text(node[0])) is cls:
+            if _names(e, _text(node[0]), cls):
                 routes.add("dotted-class-tag")
     if len(routes) > 1:
         # prefer the weakest link for a stable signature
